@@ -1,16 +1,26 @@
 (* C02  Query planning (index rewrite, load elision) never changes answers.
-   What is proved here: the model-level facts the planner relies on -- equivalent spellings of a leading label
-   or id filter select exactly the same rows (C02_spellings), count() equals the number of rows of the
-   uncounted traversal (C02_count), reordering of rows by a different access path cannot change the result
-   multiset of a window-free program (C01_order_free, re-exported as C02_order_free).
-   What is sampled (correspondence, not proved): that the production compiler -- IndexStartOptimize plus
-   the load-elision analysis of engine/inspect -- computes the literal semantics; the check runs every
-   generated program through the production compiler on kvgraph AND on a backend that honours the
-   "do not load" hint, and compares the rows with Model/Traversal.v.  A Coq model of the rewrite itself
-   (with its equivalence proof) is future work recorded in DESIGN.md. *)
+   Proved here, for every graph with unique vertex ids and every program:
+     - C02_plan_same_rows: the start rewrite of the planner (Model/Optimize.v, the model of
+       core.IndexStartOptimize: and()-flattening of the leading filter run, the first id filter turned into
+       V(ids), else the first label filter turned into an index lookup) hands the rest of the program the same
+       MULTISET of rows under the same static type as the literal program does, or both are rejected;
+     - C02_plan_equiv: hence for programs without windows/distinct the plan returns the same multiset of rows
+       (with windows the rows kept may differ, as they may for any two scans; C01_window covers their count);
+     - C02_spellings, C02_count, C02_order_free: the model-level facts these rest on.
+   The model of the rewrite is tied to the Go function on every run: the statement list it returns for ~1,000
+   programs must be the list Model/Optimize.v computes (Run/Eval_C02.v, CPlan cases).
+     - C02_loads_cover / C02_reads_loaded / C02_selected_loaded: the load-elision analysis (Model/LoadPlan.v,
+       the model of inspect.PipelineSteps, PipelineStepOutputs and State.StepLoadData) marks for loading, in
+       EVERY program, the step of every element some statement reads -- directly, or through ANY mark of the
+       name it uses (a name may be marked more than once) --, every selected mark, and the element returned.
+   Both models are tied to the Go functions on every run (Run/Eval_C02.v, CPlan / CLoad cases).
+   Not proved: that a step which is marked behaves, in every backend, as a loaded one, and that an unmarked
+   element's data is never looked at by a processor (the processors are not modelled at the level of loads);
+   the check runs every generated program through the production compiler on kvgraph AND on a backend that
+   honours the "do not load" hint, and compares the rows with Model/Traversal.v. *)
 From Coq Require Import List ZArith String Bool NArith Permutation.
 Import ListNotations.
-From Grip Require Import Model.Json Model.Has Model.Traversal Proofs.TraversalProofs Proofs.OptimizeProofs.
+From Grip Require Import Model.Json Model.Has Model.Traversal Model.Optimize Model.LoadPlan Proofs.TraversalProofs Proofs.OptimizeProofs Proofs.PlannerProofs Proofs.LoadPlanProofs.
 Local Open Scope string_scope.
 Local Open Scope list_scope.
 
@@ -37,3 +47,63 @@ Theorem C02_order_free : forall g p ts a b, forallb order_free p = true -> Permu
   end.
 Proof. intros g p ts a b Hp Hab. now apply run_perm. Qed.
 Print Assumptions C02_order_free.
+
+(* ---------- the planner's start rewrite ---------- *)
+Theorem C02_plan_same_rows : forall g p, NoDup (map v_id (gv g)) ->
+  exists pre post ok ty rows1 rows2,
+    p = pre ++ post /\ Permutation rows1 rows2 /\
+    run_from g (DNone, []) p [t0] = feeds ok ty post rows1 g /\
+    run_plan g (optimize p) = feeds ok ty post rows2 g.
+Proof. exact optimize_feeds_same_rows. Qed.
+Print Assumptions C02_plan_same_rows.
+
+Theorem C02_plan_equiv : forall g p, NoDup (map v_id (gv g)) -> forallb order_free p = true ->
+  match run_from g (DNone, []) p [t0], run_plan g (optimize p) with
+  | Some (t1, o1), Some (t2, o2) => t1 = t2 /\ Permutation o1 o2
+  | None, None => True
+  | _, _ => False
+  end.
+Proof. exact optimize_equiv. Qed.
+Print Assumptions C02_plan_equiv.
+
+(* the rewrite fires (ids and labels), flattens nested and(), and the premises are met *)
+Example C02_plan_nonvacuous :
+  let g := {| gv := [{| v_id := "a"; v_label := "P"; v_data := [] |}; {| v_id := "b"; v_label := "Q"; v_data := [] |};
+                     {| v_id := "c"; v_label := "P"; v_data := [] |}]; ge := [] |} in
+  let p1 := [SV []; SHas (HAnd [HCond "name" CEq (JStr "x"); HAnd [HCond "_label" CWithin (JList [JStr "P"; JStr "P"])]]); SOut []] in
+  let p2 := [SV []; SHasLabel ["P"]; SHas (HCond "$._gid" CEq (JStr "c")); SCount] in
+  optimize p1 = [OLookup ["P"]; OS (SHas (HCond "name" CEq (JStr "x"))); OS (SOut [])] /\
+  optimize p2 = [OS (SV ["c"]); OS (SHasLabel ["P"]); OS SCount] /\
+  NoDup (map v_id (gv g)) /\ forallb order_free p2 = true /\
+  option_map (fun r => List.length (snd r)) (run_plan g (optimize [SV []; SHasLabel ["P"]])) = Some 2%nat.
+Proof. cbv. repeat split; try reflexivity. repeat constructor; simpl; intuition discriminate. Qed.
+
+(* ---------- load elision ---------- *)
+Theorem C02_loads_cover : forall p, reads_covered p (outputs p) = true.
+Proof. exact analysis_covers. Qed.
+Print Assumptions C02_loads_cover.
+
+Theorem C02_reads_loaded : forall p i k s f, nth_error (indexed p) i = Some (k, s) -> In f (stmt_fields s) ->
+  match namespace f with
+  | None => loads (outputs p) k = true
+  | Some m => forall j, In (m, j) (as_steps (indexed p)) -> loads (outputs p) j = true
+  end.
+Proof. exact reads_loaded. Qed.
+Print Assumptions C02_reads_loaded.
+
+Theorem C02_selected_loaded : forall p i k ms m j, nth_error (indexed p) i = Some (k, SSelect ms) -> In m ms ->
+  In (m, j) (as_steps (indexed p)) -> loads (outputs p) j = true.
+Proof. exact selected_loaded. Qed.
+Print Assumptions C02_selected_loaded.
+
+(* the analysis as the compiler runs it, on whatever statement list the planner returns *)
+Theorem C02_plan_loads_cover : forall p, plan_reads_covered (optimize p) (plan_outputs (optimize p)) = true.
+Proof. intros p. apply plan_analysis_covers. Qed.
+Print Assumptions C02_plan_loads_cover.
+
+(* a name marked twice: the read between the two marks keeps the first step loaded; an unread step is elided *)
+Example C02_loads_nonvacuous :
+  let p := [SV []; SAs "m"; SOut []; SHas (HCond "$m.name" CEq (JStr "x")); SOut []; SAs "m"; SOut []; SCount] in
+  step_ids p = [1; 1; 2; 2; 3; 3; 4; 4]%nat /\
+  map (loads (outputs p)) [1; 2; 3; 4]%nat = [true; true; true; false].
+Proof. vm_compute. split; reflexivity. Qed.
